@@ -34,6 +34,7 @@ Theorem C12_sound_refuted :
   f f10_cfg (code f10_cfg 1) (0, 0) = (1, 0) /\
   admissible f10_cfg f10_history = false.
 Proof. repeat split; vm_compute; reflexivity. Qed.
+Print Assumptions C12_sound_refuted.
 
 (* second witness: ONE source file.  The file is rewritten with version 2 (and re-executed) before
    the wrapper of the still-referenced version 1 has read its source: get_func_code(g1) then
@@ -46,6 +47,7 @@ Theorem C12_sound_refuted_same_file :
   f samefile_cfg (code samefile_cfg 2) (0, 0) = (2, 0) /\
   admissible samefile_cfg samefile_history = false.
 Proof. repeat split; vm_compute; reflexivity. Qed.
+Print Assumptions C12_sound_refuted_same_file.
 
 (* Sound along every admissible history.  [admissible] (Model/MemoryCore.v) is computed from the
    history alone: within one process a function object is used (called, checked, shelved, cleared
@@ -62,6 +64,7 @@ Theorem C12_sound_partial :
   key_sound C -> f_respects C ->
   forall h, admissible C h = true -> Forall (call_sound C) (run C init h).
 Proof. intros ? ? ? ? ? ? ? C Hd Hs KS FR h A. exact (sound_admissible C Hd Hs KS FR h A). Qed.
+Print Assumptions C12_sound_partial.
 
 (* Unchanged code keeps its cache across sessions: after a completed call of object k (reached by
    an admissible history), a fresh process and then any quiet continuation -- re-imports of the
@@ -82,6 +85,7 @@ Theorem C12_unchanged_kept :
   let st3 := final C (snd (step C st1 (Call k c vld))) (NewProcess :: h3) in
   fst (step C st3 (Call k' c' true)) = OSkip \/ exists v', fst (step C st3 (Call k' c' true)) = OHit v'.
 Proof. intros ? ? ? ? ? ? ? C Hd Hs. apply unchanged_kept; assumption. Qed.
+Print Assumptions C12_unchanged_kept.
 
 (* non-vacuity: an admissible history with three versions, a code change detected across a fresh
    process, an older version re-imported, and the cache of unchanged code surviving a session *)
@@ -92,3 +96,4 @@ Example C12_admissible_example :
   outcomes f10_cfg h = [ODone; ODone; OMiss (1, 0); ODone; ODone; OMiss (2, 0); OHit (2, 0);
                         ODone; ODone; ODone; OHit (2, 0); ODone; ODone; OMiss (1, 0)].
 Proof. split; vm_compute; reflexivity. Qed.
+Print Assumptions C12_admissible_example.
